@@ -182,3 +182,44 @@ Theorem C09_verify_remember_preserves_invariant :
       (ms_full m = false -> tidy H HO s R m -> tidy H HO s (R ++ hs) m').
 Proof. exact @mm_verify_remember_inv. Qed.
 Print Assumptions C09_verify_remember_preserves_invariant.
+
+(** ** Additions (Proofs/MapMutAdd.v): [mm_modify m adds [] [] []] - any number of added leaves, full
+    and partial forests, empty roots written over, [remap] when the forest outgrows its allocated
+    height - preserves the (strengthened) invariant [MapMutAdd.Inv], which implies [consistent] and,
+    for partial forests, "nothing stored beyond what is allowed".  Side conditions [adds_ok]: added
+    hashes fresh and non-empty, and no inner node of the new forest carries the hash of a remembered
+    leaf ("barring collisions": the cache is keyed by hash; [mmc_collision] shows it is necessary). *)
+From Utreexo Require Proofs.MapMutAdd.
+
+Theorem C09_additions_preserve_invariant :
+  forall (H : Type) (HO : ops H), ops_ok HO ->
+  (forall x y, op_eqb HO (op_hash2 HO x y) (op_empty HO) = false) ->
+  forall (adds : list (H * bool)) (s : slots H) (R : list H) (m : mstate H),
+    MapMutAdd.Inv H HO s R m ->
+    N.of_nat (length s) + N.of_nat (length adds) <= 2 ^ 63 ->
+    MapMutAdd.adds_ok H HO s R (ms_full m) adds ->
+    exists m', mm_modify HO m adds [] [] [] = Some m' /\
+      MapMutAdd.Inv H HO (s ++ map Some (map fst adds)) (fold_left (MapMutAdd.Rnext H (ms_full m)) adds R) m' /\
+      ms_total m <= ms_total m' /\ ms_full m' = ms_full m.
+Proof. exact MapMutAdd.modify_adds_gen. Qed.
+Print Assumptions C09_additions_preserve_invariant.
+
+Theorem C09_add_invariant_gives_read_side :
+  forall (H : Type) (HO : ops H), ops_ok HO ->
+  forall (s : slots H) (R : list H) (m : mstate H), MapMutAdd.Inv H HO s R m -> consistent HO s R m.
+Proof. exact MapMutAdd.Inv_consistent. Qed.
+Print Assumptions C09_add_invariant_gives_read_side.
+
+Theorem C09_add_invariant_initial : forall (H : Type) (HO : ops H) (T : N) (full : bool), T <= 63 ->
+  MapMutAdd.Inv H HO [] [] (mkM [] [] 0 T full).
+Proof. exact MapMutAdd.Inv_empty. Qed.
+Print Assumptions C09_add_invariant_initial.
+
+(** "stores nothing beyond the roots, the remembered leaves and the positions on their proof paths" *)
+Theorem C09_add_invariant_stores_only_allowed :
+  forall (H : Type) (HO : ops H), ops_ok HO ->
+  forall (s : slots H) (R : list H) (m : mstate H),
+    MapMutAdd.Inv H HO s R m -> ms_full m = false ->
+    forall p, In p (stored_min m) -> exists al, allowed_pos HO s R = Some al /\ In p al.
+Proof. exact MapMutAdd.Inv_stores_allowed. Qed.
+Print Assumptions C09_add_invariant_stores_only_allowed.
